@@ -21,7 +21,9 @@ RULE = ("Same Hypothesis write programs as C07 with index_file off / True (path)
         ' A further job writes long arrays whose lengths lie on and next to powers of two to paths and streams; '
         'programs may overwrite an existing file written by an earlier writer (same groups) or use one writer object '
         'for all append sessions.'
-        ' write_segment receives lists, tuples or one-shot iterators.')
+        ' write_segment receives lists, tuples or one-shot iterators.'
+        " Wide programs, datetime64[ns] / [ms] values, names and texts containing 'TDSm' / 'TDSh' and in-place "
+        'property changes on re-used objects are included.')
 ASSUMPTIONS = [
     "vf/parse.py implements the NI TDMS layout (raw index length field counts itself: 20 bytes, 28 for strings)",
     "programs the writer rejects are outside the statement",
